@@ -163,6 +163,9 @@ func decls(src []byte) (map[string]string, []string, error) {
 		case *ast.GenDecl:
 			for _, sp := range d.Specs {
 				switch sp := sp.(type) {
+				case *ast.ImportSpec:
+					// the Go import block is part of what makes the output a working package
+					put("import "+sp.Path.Value, sp)
 				case *ast.TypeSpec:
 					put("type "+sp.Name.Name, sp)
 				case *ast.ValueSpec:
